@@ -49,11 +49,46 @@ fn run(rk: usize, short: usize, fail_at: usize, kind_i: usize, recover: bool) ->
     if !recover && fail_at < good.out.len() && r.is_ok() { return Some(format!("{desc} expected=Err actual=Ok")); }
     None
 }
+/// a body file that is long enough when it is opened and is truncated while it is being streamed (the writer cuts it to
+/// a quarter when the first body byte arrives): the response can no longer be completed, so the call must report an
+/// error, and what reached the writer must be a prefix of the head + the original content
+struct ShrinkWriter { out: Vec<u8>, head_len: usize, path: std::path::PathBuf, cut_to: u64, done: bool }
+impl futures_io::AsyncWrite for ShrinkWriter {
+    fn poll_write(mut self: Pin<&mut Self>, _cx: &mut Context<'_>, buf: &[u8]) -> Poll<std::io::Result<usize>> {
+        if !self.done && self.out.len() + buf.len() > self.head_len {
+            self.done = true;
+            if let Ok(f) = std::fs::OpenOptions::new().write(true).open(&self.path) { let _ = f.set_len(self.cut_to); }
+        }
+        self.out.extend_from_slice(buf);
+        Poll::Ready(Ok(buf.len()))
+    }
+    fn poll_flush(self: Pin<&mut Self>, _cx: &mut Context<'_>) -> Poll<std::io::Result<()>> { Poll::Ready(Ok(())) }
+    fn poll_close(self: Pin<&mut Self>, _cx: &mut Context<'_>) -> Poll<std::io::Result<()>> { Poll::Ready(Ok(())) }
+}
+fn shrink(size: usize) -> Option<String> {
+    let desc = format!("shrinkfile size={size}");
+    let path = std::env::temp_dir().join(format!("verif-c08-shrink-{}-{size}", std::process::id()));
+    if std::fs::write(&path, vec![b'x'; size]).is_err() { return None; }
+    let resp = Response::new(200).with_body(ResponseBody::File(path.clone(), size as u64));
+    let head = format!("HTTP/1.1 200 OK\r\ncontent-length: {size}\r\n\r\n");
+    let mut w = ShrinkWriter { out: Vec::new(), head_len: head.len(), path: path.clone(), cut_to: size as u64 / 4, done: false };
+    let r = std::panic::catch_unwind(std::panic::AssertUnwindSafe(|| block_on(write_http_response(&mut w, &resp, false))));
+    let _ = std::fs::remove_file(&path);
+    let r = match r { Ok(r) => r, Err(_) => return Some(format!("{desc} expected=terminates-without-panic actual=panic")) };
+    let body_ok = w.out.len() >= head.len() && w.out[..head.len()] == *head.as_bytes() && w.out[head.len()..].iter().all(|b| *b == b'x') && w.out.len() <= head.len() + size;
+    if !w.out.is_empty() && !body_ok { return Some(format!("{desc} expected=prefix-of-the-one-serialisation actual={} bytes not a prefix", w.out.len())); }
+    if r.is_ok() && w.out.len() != head.len() + size { return Some(format!("{desc} expected=Err-when-the-body-comes-up-short actual=Ok after {} of {} bytes", w.out.len(), head.len() + size)); }
+    None
+}
 fn main() {
     std::panic::set_hook(Box::new(|_| {}));
     let args: Vec<String> = std::env::args().collect();
     if args.len() >= 3 && args[1] == "replay" {
         let w = args[2..].join(" ");
+        if w.starts_with("shrinkfile") {
+            let size: usize = w.split("size=").nth(1).unwrap().split(' ').next().unwrap().parse().unwrap();
+            match shrink(size) { Some(m) => { println!("WITNESS {m}"); std::process::exit(1) } None => { println!("OK witness no longer fails"); std::process::exit(0) } }
+        }
         let n: Vec<usize> = w.split(|c: char| !c.is_ascii_digit()).filter(|s| !s.is_empty()).filter_map(|s| s.parse().ok()).collect();
         match run(n[0], n[1], n[2], n[3], w.contains("recover=true")) { Some(m) => { println!("WITNESS {m}"); std::process::exit(1) } None => { println!("OK witness no longer fails"); std::process::exit(0) } }
     }
@@ -70,6 +105,8 @@ fn main() {
             if let Some(m) = run(rk, short, fail_at, kind_i, recover) { if found.len() < 6 { found.push(m) } }
         }}}}
     }
+    // (async_fs reads ahead several MiB, so the file must be larger than that for the cut to land mid-body)
+    for size in [24usize << 20, 40 << 20] { n += 1; if let Some(m) = shrink(size) { if found.len() < 6 { found.push(m) } } }
     println!("EVALUATED {n}");
     for f in &found { println!("WITNESS {f}"); }
     std::process::exit(if found.is_empty() { 0 } else { 1 });
